@@ -24,11 +24,11 @@ class VDef:
 
 
 class Fn:
-    def __init__(self, R, qualname: str) -> None:
+    def __init__(self, R, qualname: str, inline_methods: bool = False) -> None:
         self.R = R
         self.repo: Repo = R.repo
         self.q = qualname
-        self.fi: FunctionInfo = self.repo.func(qualname)
+        self.fi: FunctionInfo = self.repo.func_with_private_methods_inlined(qualname) if inline_methods else self.repo.func(qualname)
         self.cfg = CFG(self.fi.node, fsic_hierarchy(self.repo))
         self.lf = LocalFlow(self.cfg, self.fi.params())
         self.dom = dominators(self.cfg)
@@ -111,21 +111,63 @@ class Fn:
                         # closed over nothing but module-level names (no locals of the enclosing function): safe to read anywhere
                         if not (free & encl_locals) and s_.name not in free and not any(isinstance(x, (ast.Yield, ast.Await, ast.NamedExpr)) for x in ast.walk(rv)):
                             ph[s_.name] = (s_, rv)
+            # module-level functions of the same module, and methods of the same class (keyed `self.<name>`)
+            mod_funcs = [s_ for s_ in self.fi.module.tree.body if isinstance(s_, ast.FunctionDef)]
+            for s_ in mod_funcs:
+                if s_.name in ph or s_ is self.fi.node:
+                    continue
+                rv = summarise_return(s_)
+                if rv is None:
+                    continue
+                params = {a.arg for a in s_.args.args + s_.args.kwonlyargs + s_.args.posonlyargs}
+                bound_inside = {x.id for x in ast.walk(rv) if isinstance(x, ast.Name) and isinstance(x.ctx, ast.Store)}
+                free = {x.id for x in ast.walk(rv) if isinstance(x, ast.Name) and isinstance(x.ctx, ast.Load)} - params - bound_inside
+                if not (free & encl_locals) and s_.name not in free and s_.name not in encl_locals \
+                        and not any(isinstance(x, (ast.Yield, ast.Await, ast.NamedExpr)) for x in ast.walk(rv)):
+                    ph[s_.name] = (s_, rv)
+            if self.fi.cls is not None:
+                for s_ in self.fi.cls.node.body:
+                    if isinstance(s_, ast.FunctionDef) and s_ is not self.fi.node and s_.args.args and not any(
+                            isinstance(d_, ast.Name) and d_.id in ('staticmethod', 'property') or isinstance(d_, ast.Attribute) for d_ in s_.decorator_list):
+                        import copy as _copy
+                        bare = _copy.deepcopy(s_)
+                        bare.decorator_list = []
+                        rv = summarise_return(bare)
+                        if rv is None:
+                            continue
+                        recv = s_.args.args[0].arg
+                        params = {a.arg for a in s_.args.args[1:] + s_.args.kwonlyargs}
+                        bound_inside = {x.id for x in ast.walk(rv) if isinstance(x, ast.Name) and isinstance(x.ctx, ast.Store)}
+                        free = {x.id for x in ast.walk(rv) if isinstance(x, ast.Name) and isinstance(x.ctx, ast.Load)} - params - bound_inside - {recv}
+                        if not (free & encl_locals) and not any(isinstance(x, (ast.Yield, ast.Await, ast.NamedExpr)) for x in ast.walk(rv)) \
+                                and not any(isinstance(x, ast.Attribute) and isinstance(x.value, ast.Name) and x.value.id == recv and x.attr == s_.name for x in ast.walk(rv)):
+                            ph[f'self.{s_.name}'] = (bare, rv)
             self._ph = ph
         return self._ph
 
-    def _inline_pure_calls(self, e: ast.AST, depth: int = 3) -> ast.AST:
-        ph = self._pure_helpers()
-        if not ph or depth <= 0 or not any(isinstance(x, ast.Call) and isinstance(x.func, ast.Name) and x.func.id in ph for x in ast.walk(e)):
+    def _inline_pure_calls(self, e: ast.AST, depth: int = 3, methods: bool = False) -> ast.AST:
+        ph = {k: v for k, v in self._pure_helpers().items() if methods or not k.startswith('self.')}
+        def key_of(call):
+            if isinstance(call.func, ast.Name):
+                return call.func.id
+            if isinstance(call.func, ast.Attribute) and isinstance(call.func.value, ast.Name) and call.func.value.id in ('self', 'cls'):
+                return f'self.{call.func.attr}'
+            return None
+
+        if not ph or depth <= 0 or not any(isinstance(x, ast.Call) and key_of(x) in ph for x in ast.walk(e)):
             return e
         from fsa.summ import _subst
 
         class T(ast.NodeTransformer):
             def visit_Call(self, node):
                 self.generic_visit(node)
-                if isinstance(node.func, ast.Name) and node.func.id in ph:
-                    h, body = ph[node.func.id]
+                if key_of(node) in ph:
+                    h, body = ph[key_of(node)]
                     names = [a.arg for a in h.args.posonlyargs + h.args.args]
+                    recv_bind = {}
+                    if key_of(node).startswith('self.'):
+                        recv_bind = {names[0]: node.func.value}
+                        names = names[1:]
                     if len(node.args) <= len(names) and not any(isinstance(a, ast.Starred) for a in node.args):
                         bound = dict(zip(names, node.args))
                         okb = True
@@ -145,6 +187,7 @@ class Fn:
                                 else:
                                     okb = False
                         if okb:
+                            bound.update(recv_bind)
                             return _subst(body, bound)
                 return node
 
@@ -362,6 +405,13 @@ class Fn:
         if len(st.loops) != 1 + len(self.cfg.nodes[site].loops):
             return None
         return self.loop_store_comp(st)
+
+    def symexec(self, methods: bool = False, **kw):
+        """Gated symbolic evaluator of this function, reading through the helpers `expand` reads through (with `methods`
+        also through one-expression methods of the same class, `self.m(...)`)."""
+        from fsa.gated import SymExec
+        hs = {k: v for k, v in self._pure_helpers().items() if methods or not k.startswith('self.')}
+        return SymExec(self.fi.node, extra_helpers=hs, **kw)
 
     def path_to(self, n: Node) -> List[str]:
         p = self.cfg.some_path(self.cfg.entry, n.id)
